@@ -166,6 +166,55 @@ pub fn run(args: &[String]) -> Outcome
             extra_ok = drops == 1;
             note = format!("\"payload_drops_after_second_tree\":{},\"expected_drops\":1", drops);
         }
+        // X runs in-line under a still-executing ancestor A; X's run re-triggers X itself (postponed) and THEN sends a command
+        // to A (postponed too): when X finishes, its own postponed command runs at once although it is not the last buffer entry
+        "nested_self_then_ancestor" =>
+        {
+            let cells: Arc<Mutex<[Option<SystemCommand>; 2]>> = Arc::new(Mutex::new([None, None]));
+            let (l, cc, n) = (log.clone(), cells.clone(), Arc::new(AtomicUsize::new(0)));
+            let a = world.spawn_system_command(move |mut c: Commands| {
+                let k = n.fetch_add(1, Ordering::SeqCst) + 1;
+                l.lock().unwrap().push(k as u32);
+                if k == 1 { c.queue(cc.lock().unwrap()[1].unwrap()); }
+            });
+            let (l, cc, n) = (log.clone(), cells.clone(), Arc::new(AtomicUsize::new(0)));
+            let x = world.spawn_system_command(move |mut c: Commands| {
+                let k = n.fetch_add(1, Ordering::SeqCst) + 1;
+                l.lock().unwrap().push(10 + k as u32);
+                if k == 1 { let g = cc.lock().unwrap(); c.queue(g[1].unwrap()); c.queue(g[0].unwrap()); }
+            });
+            *cells.lock().unwrap() = [Some(a), Some(x)];
+            world.queue_probe(a);
+            expected = vec![1, 11, 12, 2];
+        }
+        // two busy ancestors X and A, each with a postponed command outstanding; A's was postponed from inside a nested REPLAY
+        // of a third system B: it still runs as soon as A finishes (before X's)
+        "nested_replay_ancestor" =>
+        {
+            let cells: Arc<Mutex<[Option<SystemCommand>; 3]>> = Arc::new(Mutex::new([None, None, None]));
+            let (l, cc, n) = (log.clone(), cells.clone(), Arc::new(AtomicUsize::new(0)));
+            let x = world.spawn_system_command(move |mut c: Commands| {
+                let k = n.fetch_add(1, Ordering::SeqCst) + 1;
+                l.lock().unwrap().push(20 + k as u32);
+                if k == 1 { let g = cc.lock().unwrap(); c.queue(g[0].unwrap()); c.queue(g[1].unwrap()); }
+            });
+            let (l, cc, n) = (log.clone(), cells.clone(), Arc::new(AtomicUsize::new(0)));
+            let a = world.spawn_system_command(move |mut c: Commands| {
+                let k = n.fetch_add(1, Ordering::SeqCst) + 1;
+                l.lock().unwrap().push(k as u32);
+                if k == 1 { c.queue(cc.lock().unwrap()[2].unwrap()); }
+            });
+            let (l, cc, n) = (log.clone(), cells.clone(), Arc::new(AtomicUsize::new(0)));
+            let b = world.spawn_system_command(move |mut c: Commands| {
+                let k = n.fetch_add(1, Ordering::SeqCst) + 1;
+                l.lock().unwrap().push(10 + k as u32);
+                let g = cc.lock().unwrap();
+                if k == 1 { c.queue(g[2].unwrap()); } else if k == 2 { c.queue(g[1].unwrap()); }
+            });
+            *cells.lock().unwrap() = [Some(x), Some(a), Some(b)];
+            world.queue_probe(x);
+            expected = vec![21, 1, 11, 12, 2, 22];
+        }
         _ => { eprintln!("unknown runner scenario {}", what); std::process::exit(3); }
     }
     let v = log.lock().unwrap().clone();
